@@ -17,6 +17,11 @@ fn observe_variant(variant: &str, bytes: &[u8]) -> String {
         "clear" => p.metadata.signature.clear(),
         "newempty" => p.metadata.signature = rpm::Header::<rpm::IndexSignatureTag>::new_empty(),
         "clearsig" => { if p.clear_signatures().is_err() { return "err".into(); } }
+        "signE" => {
+            let key = match std::fs::read("/repo/tests/assets/signing_keys/secret_ed25519.asc") { Ok(k) => k, Err(_) => return "err".into() };
+            let signer = match rpm::signature::pgp::Signer::load_from_asc_bytes(&key) { Ok(s) => s, Err(_) => return "err".into() };
+            if p.sign_with_timestamp(signer, 1_600_000_000u32).is_err() { return "err".into(); }
+        }
         _ => {}
     }
     let o = p.metadata.get_package_segment_offsets();
@@ -117,7 +122,7 @@ pub fn gen(ctx: &mut Ctx) {
         ctx.req(&format!("offsets {}", hx(&bytes)));
         // values modified in memory: cleared / fresh / recomputed signature header
         if i % 10 == 0 {
-            let v = *ctx.rng.pick(&["clear", "newempty", "clearsig"]);
+            let v = *ctx.rng.pick(&["clear", "newempty", "clearsig", "signE"]);
             ctx.req(&format!("offv {} {}", v, hx(&bytes)));
         }
     }
